@@ -38,6 +38,8 @@ const FEATURES: &[&str] = &["aes-crypto", "bzip2", "deflate", "time", "zstd"];
 
 type R<T> = std::result::Result<T, String>;
 
+mod t6l;
+
 fn cfg_meta_true(m: &Meta) -> bool {
     match m {
         Meta::NameValue(nv) if nv.path.is_ident("feature") => {
@@ -3536,6 +3538,8 @@ fn main() {
             }
         }
     }
+    // tier T6 (layer mode): structures, enums and signatures of the `l*` items
+    let lreg = t6l::collect(&files.iter().map(|f| (f.rs.clone(), f.items.clone())).collect::<Vec<_>>(), &asts, &reg);
     // pass 2: emit
     std::fs::create_dir_all(out).unwrap();
     let mut failed: HashSet<String> = HashSet::new();
@@ -3718,6 +3722,7 @@ fn main() {
                         }
                         Err("not found".into())
                     }
+                    k if k.starts_with('l') => t6l::emit(k, name, &all, &reg, &lreg, &failed),
                     k => Err(format!("unknown item kind {k}")),
                 }
             })();
@@ -3739,6 +3744,9 @@ fn main() {
         writeln!(text, "import ZipVerif.Basic.Rs").unwrap();
         if fo.body.contains("Rs.R.") || fo.body.contains("Model.M") {
             writeln!(text, "import ZipVerif.Basic.RsM").unwrap();
+        }
+        if fo.body.contains("Rs.L.") || fo.body.contains("Rs.IoRes") || fo.body.contains("Rs.Crc32Hasher") {
+            writeln!(text, "import ZipVerif.Basic.RsL").unwrap();
         }
         for i in &fo.imports { writeln!(text, "import ZipVerif.Gen.{i}").unwrap(); }
         writeln!(text, "/- GENERATED by rs2lean from /repo/src/{} on every check run. Do not edit. -/", f.rs).unwrap();
